@@ -13,7 +13,7 @@ import tempest.mcmc as mcmc
 from tempest.modes import ModeStatistics
 
 from vf.engine.core import PathCtx, SymBool, cur
-from vf.engine.real import SymReal, SymInt, LogVal, CONFIG
+from vf.engine.real import SymReal, SymInt, LogVal, CONFIG, abstract_arg
 from vf.engine.arr import NpProxy, RandomStub, patched, sarr, SymArray
 from vf.engine.util import real, eq, le, lt
 
@@ -35,22 +35,22 @@ class Callbacks:
         self.shift = shift
 
     def pt_terms(self, u):
-        args = [SymReal.lift(v).term() for v in u]
+        args = [abstract_arg(SymReal.lift(v).term()) for v in u]
         return [SymReal(f(*args)) for f in self.PT]
 
     def prior_transform(self, u):
         return sarr(self.pt_terms(list(np.asarray(u, dtype=object).reshape(-1))))
 
     def ll_term(self, x):
-        args = [SymReal.lift(v).term() for v in x]
+        args = [abstract_arg(SymReal.lift(v).term()) for v in x]
         return SymReal(self.LL(*args))
 
     def bl_term(self, x):
-        args = [SymReal.lift(v).term() for v in x]
+        args = [abstract_arg(SymReal.lift(v).term()) for v in x]
         return SymReal(self.BL(*args))
 
     def inf_term(self, x):
-        args = [SymReal.lift(v).term() for v in x]
+        args = [abstract_arg(SymReal.lift(v).term()) for v in x]
         return self.INF(*args)
 
     def log_likelihood(self, x):
@@ -200,15 +200,22 @@ def isfinite_model(a):
 
 
 class exp_as_uf:
-    """inside: np.exp of a plain symbolic real is an uninterpreted positive function (sound over-approximation)."""
+    """inside: np.exp of a plain symbolic real is an uninterpreted positive function (sound over-approximation).
+    abstract=True additionally forgets the arithmetic of compound arguments of uninterpreted functions."""
+
+    def __init__(self, abstract=False):
+        self.abstract = abstract
 
     def __enter__(self):
+        self.old_abs = CONFIG["abstract_args"]
+        CONFIG["abstract_args"] = self.abstract
         self.old = (CONFIG["exp_uf"], CONFIG["log_uf"])
         CONFIG["exp_uf"] = z3.Function("EXP", z3.RealSort(), z3.RealSort())
         CONFIG["log_uf"] = z3.Function("LOG", z3.RealSort(), z3.RealSort())
 
     def __exit__(self, *a):
         CONFIG["exp_uf"], CONFIG["log_uf"] = self.old
+        CONFIG["abstract_args"] = self.old_abs
 
 
 def run_one_step(ctx, kernel, u, x, logl, blobs, assignments, beta, ms, cb: Callbacks, periodic=None, reflective=None,
